@@ -18,10 +18,7 @@ Extraction "model.ml"
   CodecSpec.spec_decode CodecSpec.spec_encode CodecSpec.wf_packet CodecSpec.spec_utf8 CodecSpec.has_ctl
   C06O.model_stream C06O.model_stream_alloc C06O.model_dec1 C06O.model_reenc C06O.c06_decode_ok C06O.stream_ok C06O.alloc_ok C06O.alloc_agree
   C06O.body_eqb C06O.may_reject
-  C06O.kf_varint_noncanonical C06O.kf_proplen_omitted C06O.kf_alloc_upfront
-  C06O.kf_ack_flags C06O.kf_trailing C06O.kf_prop_len_overrun C06O.kf_retain_handling_3 C06O.kf_nolocal_shared
-  C06O.kf_pid_zero C06O.kf_name_empty C06O.kf_connect_props_will C06O.kf_auth_v3
-  C06O.kf_v3_password_without_username C06O.kf_unsub_share_syntax
+  C06O.kf_auth_v3 C06O.kf_pubrel_v3
   C06O.c06_encode_ok C06O.step_ok
-  C06O.model_topic_obs C06O.topic_obs_eqb C06O.c06_topic_ok C06O.kf_t_name_empty C06O.kf_t_nul
+  C06O.model_topic_obs C06O.topic_obs_eqb C06O.c06_topic_ok
   C06O.c06_msg_ok C06O.model_msg_obs C06O.spec_reason.
